@@ -3254,16 +3254,17 @@ RESUME_VALIDATE_CERTS:
     if (rc < 0)
     {
         psTraceInfo("WARNING: cert did not pass internal validation test\n");
+        /*  ssl->err should have been set correctly above but catch
+            any missed cases with the generic BAD_CERTIFICATE alert, so that
+            a user callback is never told "no alert" about a failed chain */
+        if (ssl->err == SSL_ALERT_NONE)
+        {
+            ssl->err = SSL_ALERT_BAD_CERTIFICATE;
+        }
         /*      Cert auth failed.  If there is no user callback issue fatal alert
             because there will be no intervention to give it a second look. */
         if (ssl->sec.validateCert == NULL)
         {
-            /*  ssl->err should have been set correctly above but catch
-                any missed cases with the generic BAD_CERTIFICATE alert */
-            if (ssl->err == SSL_ALERT_NONE)
-            {
-                ssl->err = SSL_ALERT_BAD_CERTIFICATE;
-            }
             return MATRIXSSL_ERROR;
         }
     }
